@@ -71,6 +71,8 @@ def _alpha(p):
 def gen_model(rng, p, n_tasks=None):
     WORK, SKILL, COST = _alpha(p)
     n = n_tasks or wchoice(rng, N_TASK_W)
+    if p.get("big") and not n_tasks:
+        n = rng.randint(9, 14)  # beyond the 8-slot set table: schedules are still one deterministic order per rank assignment
     same_work = rng.choice([1.0, 2.0, 0.5]) if p["same_step"] else None
     tasks = []
     for i in range(n):
